@@ -172,6 +172,14 @@ func fetchTimeSeriesList(db *whispertool.Whisper, archiveID int, from, until, no
 	} else {
 		return nil, whispertool.ErrArchiveIDOutOfRange
 	}
+	// An archive that was not selected, or whose retention does not reach
+	// the requested range, is represented by an empty series, not by nil.
+	for i := range tsList {
+		if tsList[i] == nil {
+			step := db.ArchiveInfoList()[i].SecondsPerPoint()
+			tsList[i] = whispertool.NewTimeSeries(0, 0, step, nil)
+		}
+	}
 	return tsList, nil
 }
 
